@@ -151,4 +151,910 @@ theorem contourDp_ok (t : Tol) (ds cs : List Pt) (must : List Bool) (lb : Nat) :
   · apply dpOuter_ok _ _ _ _ _ _ _ 0 [] [] rfl
     intro k hk; simp at hk
 
+/-! ### nearest retained neighbour: linear search lemmas (no modular arithmetic) -/
+
+theorem prevFrom_lin (enc : List Bool) (n : Nat) :
+    ∀ (d f p a : Nat), p = a + d → d < f → enc.getD a false = true →
+      (∀ j, a < j → j ≤ p → enc.getD j false = false) → prevFrom enc n f p = some a := by
+  intro d
+  induction d with
+  | zero =>
+    intro f p a hp hf ha _
+    obtain ⟨f', rfl⟩ : ∃ f', f = f' + 1 := ⟨f - 1, by omega⟩
+    have : p = a := by omega
+    subst this
+    simp only [prevFrom, ha, if_true]
+  | succ d ih =>
+    intro f p a hp hf ha hno
+    obtain ⟨f', rfl⟩ : ∃ f', f = f' + 1 := ⟨f - 1, by omega⟩
+    have hpf : enc.getD p false = false := hno p (by omega) (by omega)
+    have hpred : predC n p = p - 1 := by unfold predC; split <;> omega
+    simp only [prevFrom, hpf, Bool.false_eq_true, if_false, hpred]
+    exact ih f' (p - 1) a (by omega) (by omega) ha (fun j h1 h2 => hno j h1 (by omega))
+
+theorem prevFrom_wrap (enc : List Bool) (n : Nat) (hn : 0 < n) (hlast : enc.getD (n - 1) false = true) :
+    ∀ (p f : Nat), p + 1 < f → (∀ j, j ≤ p → enc.getD j false = false) →
+      prevFrom enc n f p = some (n - 1) := by
+  intro p
+  induction p with
+  | zero =>
+    intro f hf hno
+    obtain ⟨f', rfl⟩ : ∃ f', f = f' + 2 := ⟨f - 2, by omega⟩
+    have h0 : enc.getD 0 false = false := hno 0 (by omega)
+    simp only [prevFrom, h0, predC, hlast, if_true, Bool.false_eq_true, if_false]
+  | succ p ih =>
+    intro f hf hno
+    obtain ⟨f', rfl⟩ : ∃ f', f = f' + 1 := ⟨f - 1, by omega⟩
+    have hpf : enc.getD (p + 1) false = false := hno (p + 1) (by omega)
+    have hpred : predC n (p + 1) = p := by unfold predC; split <;> omega
+    simp only [prevFrom, hpf, Bool.false_eq_true, if_false, hpred]
+    exact ih f' (by omega) (fun j h => hno j (by omega))
+
+theorem nextFrom_lin (enc : List Bool) (n : Nat) :
+    ∀ (d f p b : Nat), b = p + d → d < f → b < n → enc.getD b false = true →
+      (∀ j, p ≤ j → j < b → enc.getD j false = false) → nextFrom enc n f p = some b := by
+  intro d
+  induction d with
+  | zero =>
+    intro f p b hp hf hb ha _
+    obtain ⟨f', rfl⟩ : ∃ f', f = f' + 1 := ⟨f - 1, by omega⟩
+    have : b = p := by omega
+    subst this
+    simp only [nextFrom, ha, if_true]
+  | succ d ih =>
+    intro f p b hp hf hb ha hno
+    obtain ⟨f', rfl⟩ : ∃ f', f = f' + 1 := ⟨f - 1, by omega⟩
+    have hpf : enc.getD p false = false := hno p (by omega) (by omega)
+    have hsucc : succC n p = p + 1 := by unfold succC; split <;> omega
+    simp only [nextFrom, hpf, Bool.false_eq_true, if_false, hsucc]
+    exact ih f' (p + 1) b (by omega) (by omega) hb ha (fun j h1 h2 => hno j (by omega) h2)
+
+theorem prevFrom_none (enc : List Bool) (n : Nat) (h : ∀ j, enc.getD j false = false) :
+    ∀ f p, prevFrom enc n f p = none := by
+  intro f; induction f with
+  | zero => intro p; rfl
+  | succ f ih => intro p; simp only [prevFrom, h p, Bool.false_eq_true, if_false, ih]
+
+/-- rotation `σ i = (i + r) mod n` written without `%` -/
+def rotIx (n r i : Nat) : Nat := if i + r < n then i + r else i + r - n
+
+theorem prevFrom_rot (enc enc' : List Bool) (n r : Nat) (hr : r ≤ n)
+    (henc : ∀ i, i < n → enc'.getD i false = enc.getD (rotIx n r i) false) :
+    ∀ f p, p < n → prevFrom enc n f (rotIx n r p) = (prevFrom enc' n f p).map (rotIx n r) := by
+  intro f; induction f with
+  | zero => intro p _; rfl
+  | succ f ih =>
+    intro p hp
+    simp only [prevFrom, ← henc p hp]
+    split
+    · rfl
+    · have : predC n (rotIx n r p) = rotIx n r (predC n p) := by
+        unfold predC rotIx; (repeat' split) <;> omega
+      rw [this]
+      exact ih _ (by unfold predC; split <;> omega)
+
+theorem nextFrom_rot (enc enc' : List Bool) (n r : Nat) (hr : r ≤ n)
+    (henc : ∀ i, i < n → enc'.getD i false = enc.getD (rotIx n r i) false) :
+    ∀ f p, p < n → nextFrom enc n f (rotIx n r p) = (nextFrom enc' n f p).map (rotIx n r) := by
+  intro f; induction f with
+  | zero => intro p _; rfl
+  | succ f ih =>
+    intro p hp
+    simp only [nextFrom, ← henc p hp]
+    split
+    · rfl
+    · have : succC n (rotIx n r p) = rotIx n r (succC n p) := by
+        unfold succC rotIx; (repeat' split) <;> omega
+      rw [this]
+      exact ih _ (by unfold succC; split <;> omega)
+
+
+/-- `a` is the nearest retained point before `k` in a contour whose last point `n-1` is retained -/
+def LinPrev (m : Nat → Bool) (n k a : Nat) : Prop :=
+  (a < k ∧ m a = true ∧ ∀ j, a < j → j < k → m j = false) ∨
+  (a = n - 1 ∧ m a = true ∧ ∀ j, j < k → m j = false)
+
+def LinNext (m : Nat → Bool) (n k b : Nat) : Prop :=
+  k < b ∧ b < n ∧ m b = true ∧ ∀ j, k < j → j < b → m j = false
+
+theorem prevReq_of_LinPrev (enc : List Bool) (n k a : Nat) (hk : k < n)
+    (h : LinPrev (fun i => enc.getD i false) n k a) : prevReq enc n k = some a := by
+  unfold prevReq
+  rcases h with ⟨hak, ha, hno⟩ | ⟨han, ha, hno⟩
+  · have hpred : predC n k = k - 1 := by unfold predC; split <;> omega
+    rw [hpred]
+    exact prevFrom_lin enc n (k - 1 - a) n (k - 1) a (by omega) (by omega) ha
+      (fun j h1 h2 => hno j h1 (by omega))
+  · subst han
+    by_cases hk0 : k = 0
+    · subst hk0
+      have : predC n 0 = n - 1 := by simp [predC]
+      rw [this]
+      obtain ⟨f', rfl⟩ : ∃ f', n = f' + 1 := ⟨n - 1, by omega⟩
+      simp only [prevFrom]
+      simp only [Nat.add_sub_cancel] at ha
+      simp only [Nat.add_sub_cancel, ha, if_true]
+    · have hpred : predC n k = k - 1 := by unfold predC; split <;> omega
+      rw [hpred]
+      exact prevFrom_wrap enc n (by omega) ha (k - 1) n (by omega) (fun j hj => hno j (by omega))
+
+theorem nextReq_of_LinNext (enc : List Bool) (n k b : Nat)
+    (h : LinNext (fun i => enc.getD i false) n k b) : nextReq enc n k = some b := by
+  unfold nextReq
+  obtain ⟨hkb, hbn, hb, hno⟩ := h
+  have hsucc : succC n k = k + 1 := by unfold succC; split <;> omega
+  rw [hsucc]
+  exact nextFrom_lin enc n (b - (k + 1)) n (k + 1) b (by omega) (by omega) hbn hb
+    (fun j h1 h2 => hno j (by omega) h2)
+
+/-- soundness of a set `enc` of retained deltas for one contour: every omitted delta is
+reproduced by the specification's inference within the tolerance -/
+def Sound (t : Tol) (ds cs : List Pt) (enc : List Bool) : Prop :=
+  ∀ k, k < ds.length → enc.getD k false = false →
+    withinTol t (getP ds k) (inferSpec cs ds enc k).1 (inferSpec cs ds enc k).2 = true
+
+theorem getD_map_range (n : Nat) (f : Nat → Bool) (i : Nat) (hi : i < n) :
+    ((List.range n).map f).getD i false = f i := by
+  simp [List.getD_eq_getElem?_getD, hi]
+
+/-- a linear certificate in rotated coordinates (last point retained, every omitted point
+checked against its nearest retained neighbours) gives soundness in the original coordinates -/
+theorem sound_of_cert (t : Tol) (ds cs : List Pt) (enc : List Bool) (n r : Nat)
+    (hn : ds.length = n) (hr : r ≤ n) (m' : Nat → Bool)
+    (hm : ∀ i, i < n → m' i = enc.getD (rotIx n r i) false)
+    (cert : ∀ k', k' < n → m' k' = false → ∃ a' b', LinPrev m' n k' a' ∧ LinNext m' n k' b' ∧
+      okAt t ds cs (rotIx n r a') (rotIx n r b') (rotIx n r k') = true) :
+    Sound t ds cs enc := by
+  intro k hk hek
+  rw [hn] at hk
+  let k' := if k ≥ r then k - r else k + n - r
+  have hk' : k' < n := by simp only [k']; split <;> omega
+  have hkk : rotIx n r k' = k := by simp only [k', rotIx]; (repeat' split) <;> omega
+  have hmk : m' k' = false := by rw [hm k' hk', hkk]; exact hek
+  obtain ⟨a', b', hp, hnx, hok⟩ := cert k' hk' hmk
+  let enc' := (List.range n).map m'
+  have henc' : ∀ i, i < n → enc'.getD i false = enc.getD (rotIx n r i) false := by
+    intro i hi; rw [← hm i hi]; exact getD_map_range n m' i hi
+  have hb'n : b' < n := hnx.2.1
+  have ha'n : a' < n := by
+    rcases hp with ⟨h, _, _⟩ | ⟨h, _, _⟩ <;> omega
+  have e1 : ∀ i, i < n → (fun i => enc'.getD i false) i = m' i := fun i hi => getD_map_range n m' i hi
+  have hp' : LinPrev (fun i => enc'.getD i false) n k' a' := by
+    rcases hp with ⟨h1, h2, h3⟩ | ⟨h1, h2, h3⟩
+    · left; refine ⟨h1, by rw [e1 a' ha'n]; exact h2, fun j hj1 hj2 => ?_⟩
+      rw [e1 j (by omega)]; exact h3 j hj1 hj2
+    · right; refine ⟨h1, by rw [e1 a' ha'n]; exact h2, fun j hj => ?_⟩
+      rw [e1 j (by omega)]; exact h3 j hj
+  have hn' : LinNext (fun i => enc'.getD i false) n k' b' := by
+    obtain ⟨h1, h2, h3, h4⟩ := hnx
+    refine ⟨h1, h2, by rw [e1 b' h2]; exact h3, fun j hj1 hj2 => ?_⟩
+    rw [e1 j (by omega)]; exact h4 j hj1 hj2
+  have hprev : prevReq enc n k = some (rotIx n r a') := by
+    have h1 := prevReq_of_LinPrev enc' n k' a' hk' hp'
+    unfold prevReq at h1 ⊢
+    have hpc : predC n k = rotIx n r (predC n k') := by
+      rw [← hkk]; unfold predC rotIx; (repeat' split) <;> omega
+    rw [hpc, prevFrom_rot enc enc' n r hr henc' n _ (by unfold predC; split <;> omega), h1]
+    rfl
+  have hnext : nextReq enc n k = some (rotIx n r b') := by
+    have h1 := nextReq_of_LinNext enc' n k' b' hn'
+    unfold nextReq at h1 ⊢
+    have hpc : succC n k = rotIx n r (succC n k') := by
+      rw [← hkk]; unfold succC rotIx; (repeat' split) <;> omega
+    rw [hpc, nextFrom_rot enc enc' n r hr henc' n _ (by unfold succC; split <;> omega), h1]
+    rfl
+  unfold inferSpec
+  rw [hn, hek, hprev, hnext]
+  simp only [Bool.false_eq_true, if_false]
+  rw [← hkk]
+  exact hok
+
+/-! ### what `can_iup_in_between` guarantees -/
+
+theorem all_range {n : Nat} {p : Nat → Bool} (h : (List.range n).all p = true) (k : Nat) (hk : k < n) :
+    p k = true := by
+  rw [List.all_eq_true] at h
+  exact h k (List.mem_range.mpr hk)
+
+theorem canIup_some (t : Tol) (D C : List Pt) (j i : Nat) (h : canIup t D C (j : Int) i = true)
+    (k : Nat) (h1 : j < k) (h2 : k < i) : okAt t D C j i k = true := by
+  unfold canIup at h
+  have hj : ¬ ((j : Int) < 0) := by omega
+  simp only [hj, if_false] at h
+  have e1 : ((j : Int)).toNat = j := by omega
+  have e2 : ((j : Int) + 1).toNat = j + 1 := by omega
+  rw [e1, e2] at h
+  have := all_range h (k - (j + 1)) (by omega)
+  have e3 : j + 1 + (k - (j + 1)) = k := by omega
+  rw [e3] at this
+  exact this
+
+theorem canIup_neg (t : Tol) (D C : List Pt) (i : Nat) (h : canIup t D C (-1) i = true)
+    (k : Nat) (h2 : k < i) : okAt t D C (D.length - 1) i k = true := by
+  unfold canIup at h
+  have hj : ((-1 : Int) < 0) := by omega
+  simp only [hj, if_true] at h
+  have e2 : ((-1 : Int) + 1).toNat = 0 := by omega
+  rw [e2] at h
+  have := all_range h k (by omega)
+  simpa using this
+
+/-- `chain` only points downwards -/
+theorem chain_desc (t : Tol) (D C : List Pt) (chain : List (Option Nat)) (h : ChainsOk t D C chain)
+    (i j : Nat) (hij : chain.getD i none = some j) : j < i ∧ i < chain.length := by
+  by_cases hi : i < chain.length
+  · have := h i hi
+    rw [hij] at this
+    simp only [ChainOk] at this
+    omega
+  · have : chain.getD i none = none := by
+      simp [List.getD_eq_getElem?_getD, List.getElem?_eq_none (by omega : chain.length ≤ i)]
+    rw [this] at hij; cases hij
+
+def loOf : Option Nat → Nat
+  | none => 0
+  | some l => l + 1
+
+def refOf (N : Nat) : Option Nat → Nat
+  | none => N - 1
+  | some l => l
+
+theorem gtLim_iff (lim : Option Nat) (i : Nat) : gtLim lim i = true ↔ loOf lim ≤ i := by
+  cases lim with
+  | none => simp [gtLim, loOf]
+  | some l => simp only [gtLim, loOf, decide_eq_true_eq]; omega
+
+theorem walkLim_none (chain : List (Option Nat)) (lim : Option Nat) (f : Nat) :
+    walkLim chain lim f none = ([], none) := by cases f <;> rfl
+
+/-- every index visited by the walk from `i` is at most `i` -/
+theorem walkLim_le (t : Tol) (D C : List Pt) (chain : List (Option Nat)) (h : ChainsOk t D C chain)
+    (lim : Option Nat) : ∀ (f i : Nat) (e : Nat), e ∈ (walkLim chain lim f (some i)).1 → e ≤ i := by
+  intro f
+  induction f with
+  | zero => intro i e he; simp [walkLim] at he
+  | succ f ih =>
+    intro i e he
+    by_cases hgt : gtLim lim i = true
+    · simp only [walkLim, hgt, if_true, List.mem_cons] at he
+      rcases he with rfl | he
+      · omega
+      · cases hc : chain.getD i none with
+        | none =>
+          rw [hc, walkLim_none] at he
+          simp at he
+        | some j =>
+          rw [hc] at he
+          have := ih j e he
+          have := (chain_desc t D C chain h i j hc).1
+          omega
+    · simp only [walkLim, hgt] at he
+      simp at he
+
+/-- with `lim = none` and enough fuel the walk ends at `None` -/
+theorem walkLim_fin_none (t : Tol) (D C : List Pt) (chain : List (Option Nat)) (h : ChainsOk t D C chain) :
+    ∀ (f i : Nat), i < f → (walkLim chain none f (some i)).2 = none := by
+  intro f
+  induction f with
+  | zero => intro i hi; omega
+  | succ f ih =>
+    intro i hi
+    have hgt : gtLim none i = true := rfl
+    simp only [walkLim, hgt, if_true]
+    cases hc : chain.getD i none with
+    | none => rw [walkLim_none]
+    | some j =>
+      have := (chain_desc t D C chain h i j hc).1
+      exact ih j (by omega)
+
+/-- nearest retained point below `k` in window coordinates: inside the window, or the wrap
+reference `R` when there is none -/
+def PrevZ (m : Nat → Bool) (lo R k a : Nat) : Prop :=
+  (lo ≤ a ∧ a < k ∧ m a = true ∧ ∀ j, a < j → j < k → m j = false) ∨
+  (a = R ∧ ∀ j, lo ≤ j → j < k → m j = false)
+
+def NextZ (m : Nat → Bool) (hi k b : Nat) : Prop :=
+  k < b ∧ b ≤ hi ∧ m b = true ∧ ∀ j, k < j → j < b → m j = false
+
+/-- the walk's certificate: if the walk from `i` ended exactly at `lim`, every unvisited index
+of the window `(lim, i]` lies between two consecutive visited ones (or the wrap reference and
+the lowest visited one) and `can_iup_in_between` was checked for that pair. -/
+theorem walkLim_cert (t : Tol) (D C : List Pt) (chain : List (Option Nat)) (h : ChainsOk t D C chain)
+    (lim : Option Nat) (m : Nat → Bool) :
+    ∀ (f i : Nat), i < chain.length → (walkLim chain lim f (some i)).2 = lim →
+      (∀ e, loOf lim ≤ e → e ≤ i → (m e = true ↔ e ∈ (walkLim chain lim f (some i)).1)) →
+      ∀ k, loOf lim ≤ k → k < i → m k = false →
+        ∃ a b, PrevZ m (loOf lim) (refOf D.length lim) k a ∧ NextZ m i k b ∧ okAt t D C a b k = true := by
+  intro f
+  induction f with
+  | zero =>
+    intro i hi hfin hm k hk1 hk2 hmk
+    simp only [walkLim] at hfin
+    subst hfin
+    simp only [loOf] at hk1; omega
+  | succ f ih =>
+    intro i hi hfin hm k hk1 hk2 hmk
+    by_cases hgt : gtLim lim i = true
+    · have hgt' : loOf lim ≤ i := (gtLim_iff lim i).mp hgt
+      simp only [walkLim, hgt, if_true] at hfin hm
+      have hmi : m i = true := (hm i hgt' (Nat.le_refl _)).mpr (List.mem_cons_self ..)
+      cases hc : chain.getD i none with
+      | none =>
+        rw [hc, walkLim_none] at hfin hm
+        simp only at hfin
+        subst hfin
+        have hco := h i hi
+        rw [hc] at hco
+        simp only [ChainOk] at hco
+        have hcan : canIup t D C (-1) i = true := by
+          rcases hco with h0 | h0
+          · omega
+          · exact h0
+        refine ⟨D.length - 1, i, Or.inr ⟨rfl, fun j hj1 hj2 => ?_⟩, ⟨hk2, Nat.le_refl _, hmi, fun j hj1 hj2 => ?_⟩,
+          canIup_neg t D C i hcan k hk2⟩
+        · cases hmj : m j with
+          | false => rfl
+          | true =>
+            have := (hm j hj1 (by omega)).mp hmj
+            simp only [List.mem_cons, List.not_mem_nil, or_false] at this
+            omega
+        · cases hmj : m j with
+          | false => rfl
+          | true =>
+            have := (hm j (by simp [loOf]) (by omega)).mp hmj
+            simp only [List.mem_cons, List.not_mem_nil, or_false] at this
+            omega
+      | some j =>
+        rw [hc] at hfin hm
+        have hji := (chain_desc t D C chain h i j hc)
+        have hco := h i hi
+        rw [hc] at hco
+        simp only [ChainOk] at hco
+        have hseg : ∀ k, j < k → k < i → okAt t D C j i k = true := by
+          intro k h1 h2
+          rcases hco with h0 | ⟨_, h0⟩
+          · omega
+          · exact canIup_some t D C j i h0 k h1 h2
+        -- elements of the rest of the walk are ≤ j
+        have hle := walkLim_le t D C chain h lim f j
+        have hbetween : ∀ e, loOf lim ≤ e → j < e → e < i → m e = false := by
+          intro e h0 h1 h2
+          cases hme : m e with
+          | false => rfl
+          | true =>
+            have := (hm e h0 (by omega)).mp hme
+            simp only [List.mem_cons] at this
+            rcases this with rfl | h3
+            · omega
+            · have := hle e h3; omega
+        by_cases hjlo : loOf lim ≤ j
+        · -- `j` is inside the window: recurse
+          have hm' : ∀ e, loOf lim ≤ e → e ≤ j → (m e = true ↔ e ∈ (walkLim chain lim f (some j)).1) := by
+            intro e h1 h2
+            rw [hm e h1 (by omega)]
+            simp only [List.mem_cons]
+            constructor
+            · rintro (rfl | h3)
+              · omega
+              · exact h3
+            · exact fun h3 => Or.inr h3
+          have hmj : m j = true := by
+            cases f with
+            | zero =>
+              simp only [walkLim] at hfin
+              subst hfin; simp only [loOf] at hjlo; omega
+            | succ f' =>
+              rw [hm' j hjlo (Nat.le_refl _)]
+              have hg : gtLim lim j = true := (gtLim_iff lim j).mpr hjlo
+              simp only [walkLim, hg, if_true, List.mem_cons, true_or]
+          by_cases hkj : k < j
+          · obtain ⟨a, b, hp, ⟨n1, n2, n3, n4⟩, hok⟩ := ih j (by omega) hfin hm' k hk1 hkj hmk
+            exact ⟨a, b, hp, ⟨n1, by omega, n3, n4⟩, hok⟩
+          · have hkj' : j < k := by
+              rcases Nat.lt_or_ge j k with h1 | h1
+              · exact h1
+              · have : k = j := by omega
+                subst this; rw [hmj] at hmk; cases hmk
+            refine ⟨j, i, Or.inl ⟨hjlo, hkj', hmj, fun e h1 h2 => hbetween e (by omega) h1 (by omega)⟩,
+              ⟨hk2, Nat.le_refl _, hmi, fun e h1 h2 => hbetween e (by omega) (by omega) h2⟩, hseg k hkj' hk2⟩
+        · -- `j` is at or below `lim`: the walk stops, and `fin = lim` forces `lim = some j`
+          have hw : walkLim chain lim f (some j) = ([], some j) := by
+            cases f with
+            | zero => rfl
+            | succ f' =>
+              have hg : gtLim lim j = false := by
+                cases hh : gtLim lim j with
+                | false => rfl
+                | true => exact absurd ((gtLim_iff lim j).mp hh) hjlo
+              simp only [walkLim, hg, Bool.false_eq_true, if_false]
+          rw [hw] at hfin hm
+          simp only at hfin
+          subst hfin
+          simp only [loOf] at hk1 hgt' hjlo hbetween ⊢
+          simp only [refOf]
+          refine ⟨j, i, Or.inr ⟨rfl, fun e h1 h2 => hbetween e (by omega) (by omega) (by omega)⟩,
+            ⟨hk2, Nat.le_refl _, hmi, fun e h1 h2 => hbetween e (by omega) (by omega) h2⟩, hseg k (by omega) hk2⟩
+    · -- not `gt`: the walk is empty and `fin = some i = lim`
+      simp only [walkLim, hgt] at hfin
+      simp only [Bool.false_eq_true, if_false] at hfin
+      subst hfin
+      simp only [loOf] at hk1; omega
+
+theorem dpOuter_length (t : Tol) (ds cs : List Pt) (must : List Bool) (lb n : Nat) :
+    ∀ (fuel i : Nat) (costs : List Int) (chain : List (Option Nat)), chain.length = i → i ≤ n →
+      n - i ≤ fuel → (dpOuter t ds cs must lb n fuel i costs chain).2.length = n := by
+  intro fuel
+  induction fuel with
+  | zero => intro i costs chain hl hi hf; simp only [dpOuter]; omega
+  | succ f ih =>
+    intro i costs chain hl hi hf
+    simp only [dpOuter]
+    split
+    · simp only; omega
+    · split
+      · exact ih (i + 1) _ _ (by simp [hl]) (by omega) (by omega)
+      · exact ih (i + 1) _ _ (by simp [hl]) (by omega) (by omega)
+
+theorem contourDp_length (t : Tol) (ds cs : List Pt) (must : List Bool) (lb : Nat) :
+    (contourDp t ds cs must lb).2.length = ds.length := by
+  unfold contourDp
+  simp only []
+  split
+  · simp
+  · exact dpOuter_length t ds cs must lb ds.length ds.length 0 [] [] rfl (by omega) (by omega)
+
+theorem getP_rotateRight (l : List Pt) (mid i : Nat) (hmid : mid < l.length) (hi : i < l.length) :
+    getP (rotateRight l mid) i = getP l (rotIx l.length (l.length - mid) i) := by
+  unfold rotateRight getP rotIx
+  have h0 : l.length ≠ 0 := by omega
+  simp only [h0, if_false, Nat.mod_eq_of_lt hmid, List.getD_eq_getElem?_getD]
+  by_cases h : i < mid
+  · have e : i + (l.length - mid) < l.length := by omega
+    rw [List.getElem?_append_left (by simp; omega)]
+    simp only [e, if_true, List.getElem?_drop]
+    congr 2; omega
+  · have e : ¬ (i + (l.length - mid) < l.length) := by omega
+    rw [List.getElem?_append_right (by simp; omega)]
+    simp only [e, if_false, List.length_drop, List.getElem?_take]
+    have : i - (l.length - (l.length - mid)) < l.length - mid := by omega
+    simp only [this, if_true]
+    congr 2; omega
+
+theorem getP_double (l : List Pt) (z : Nat) (hz : z < 2 * l.length) :
+    getP (l ++ l) z = getP l (if z < l.length then z else z - l.length) := by
+  unfold getP
+  simp only [List.getD_eq_getElem?_getD]
+  by_cases h : z < l.length
+  · simp only [h, if_true, List.getElem?_append_left h]
+  · simp only [h, if_false, List.getElem?_append_right (by omega : l.length ≤ z)]
+
+theorem mod_lt2 (x n : Nat) (h : x < 2 * n) : x % n = if x < n then x else x - n := by
+  split
+  · exact Nat.mod_eq_of_lt (by assumption)
+  · rw [Nat.mod_eq_sub_mod (by omega)]
+    exact Nat.mod_eq_of_lt (by omega)
+
+theorem length_rotateRight {α} (l : List α) (k : Nat) : (rotateRight l k).length = l.length := by
+  unfold rotateRight
+  split
+  · rfl
+  · simp only [List.length_append, List.length_drop, List.length_take]
+    have : k % l.length < l.length := Nat.mod_lt _ (by omega)
+    omega
+
+theorem okAt_congr (t : Tol) (D C ds cs : List Pt) (a b k a2 b2 k2 : Nat)
+    (h1 : getP D a = getP ds a2) (h2 : getP C a = getP cs a2)
+    (h3 : getP D b = getP ds b2) (h4 : getP C b = getP cs b2)
+    (h5 : getP D k = getP ds k2) (h6 : getP C k = getP cs k2) :
+    okAt t D C a b k = okAt t ds cs a2 b2 k2 := by
+  unfold okAt; rw [h1, h2, h3, h4, h5, h6]
+
+theorem walkLim_ge (chain : List (Option Nat)) (lim : Option Nat) :
+    ∀ (f : Nat) (i : Option Nat) (e : Nat), e ∈ (walkLim chain lim f i).1 → loOf lim ≤ e := by
+  intro f
+  induction f with
+  | zero => intro i e he; simp [walkLim] at he
+  | succ f ih =>
+    intro i e he
+    cases i with
+    | none => simp [walkLim] at he
+    | some idx =>
+      by_cases hgt : gtLim lim idx = true
+      · simp only [walkLim, hgt, if_true, List.mem_cons] at he
+        rcases he with rfl | he
+        · exact (gtLim_iff lim e).mp hgt
+        · exact ih _ e he
+      · simp only [walkLim, hgt] at he
+        simp at he
+
+/-- the rotated branch of `iup_contour_optimize` -/
+theorem sound_rotated (t : Tol) (ds cs : List Pt) (must' : List Bool) (lb mid : Nat)
+    (hlen : cs.length = ds.length) (hmid : mid < ds.length) :
+    let n := ds.length
+    let dp := contourDp t (rotateRight ds mid) (rotateRight cs mid) must' lb
+    let S := (walkLim dp.2 none (2 * n + 2) (some (n - 1))).1
+    let encB := (List.range n).map fun i => S.contains i
+    Sound t ds cs ((List.range n).map fun i => encB.getD ((i + mid) % n) false) := by
+  intro n dp S encB
+  have hn : 0 < n := by omega
+  have hD : (rotateRight ds mid).length = n := length_rotateRight ds mid
+  have hch : ChainsOk t (rotateRight ds mid) (rotateRight cs mid) dp.2 := contourDp_ok t _ _ must' lb
+  have hcl : dp.2.length = n := by rw [← hD]; exact contourDp_length ..
+  have hfin : (walkLim dp.2 none (2 * n + 2) (some (n - 1))).2 = none :=
+    walkLim_fin_none t _ _ dp.2 hch _ _ (by omega)
+  let m : Nat → Bool := fun e => S.contains e
+  have hmS : ∀ e, (m e = true ↔ e ∈ S) := fun e => by simp [m]
+  have hmlast : m (n - 1) = true := by
+    rw [hmS]
+    have hg : gtLim none (n - 1) = true := rfl
+    simp only [S, walkLim, hg, if_true, List.mem_cons, true_or]
+  have cert := walkLim_cert t _ _ dp.2 hch none m (2 * n + 2) (n - 1) (by omega) hfin
+    (fun e _ _ => hmS e)
+  apply sound_of_cert t ds cs _ n (n - mid) rfl (by omega) m
+  · intro i hi
+    have hr : rotIx n (n - mid) i < n := by unfold rotIx; split <;> omega
+    rw [getD_map_range n _ _ hr]
+    have e1 : (rotIx n (n - mid) i + mid) % n = i := by
+      unfold rotIx
+      split
+      · have : i + (n - mid) + mid = i + n := by omega
+        rw [this, Nat.add_mod_right, Nat.mod_eq_of_lt hi]
+      · have : i + (n - mid) - n + mid = i := by omega
+        rw [this, Nat.mod_eq_of_lt hi]
+    rw [e1, getD_map_range n _ _ hi]
+  · intro k hk hmk
+    have hk' : k < n - 1 := by
+      rcases Nat.lt_or_ge k (n - 1) with h | h
+      · exact h
+      · have : k = n - 1 := by omega
+        rw [this, hmlast] at hmk; cases hmk
+    obtain ⟨a, b, hp, hnx, hok⟩ := cert k (Nat.zero_le _) hk' hmk
+    simp only [loOf, refOf, hD] at hp
+    have hb : b < n := by have := hnx.2.1; omega
+    have ha : a < n := by rcases hp with ⟨_, h, _⟩ | ⟨h, _⟩ <;> omega
+    refine ⟨a, b, ?_, ⟨hnx.1, hb, hnx.2.2.1, hnx.2.2.2⟩, ?_⟩
+    · rcases hp with ⟨_, h1, h2, h3⟩ | ⟨h1, h2⟩
+      · exact Or.inl ⟨h1, h2, h3⟩
+      · exact Or.inr ⟨h1, by rw [h1]; exact hmlast, fun j hj => h2 j (Nat.zero_le _) hj⟩
+    · rw [← hok]
+      symm
+      have hmid' : mid < cs.length := by omega
+      apply okAt_congr
+      · exact getP_rotateRight ds mid a hmid ha
+      · rw [getP_rotateRight cs mid a hmid' (by omega), hlen]
+      · exact getP_rotateRight ds mid b hmid hb
+      · rw [getP_rotateRight cs mid b hmid' (by omega), hlen]
+      · exact getP_rotateRight ds mid k hmid hk
+      · rw [getP_rotateRight cs mid k hmid' (by omega), hlen]
+
+/-- the doubled-contour branch of `iup_contour_optimize`: any `start` whose walk ended exactly at
+`start - n` yields a sound set -/
+theorem sound_doubled (t : Tol) (ds cs : List Pt) (must : List Bool) (lb start : Nat)
+    (hlen : cs.length = ds.length) (h1 : ds.length - 1 ≤ start) (h2 : start + 2 ≤ 2 * ds.length) :
+    let n := ds.length
+    let dp := contourDp t (ds ++ ds) (cs ++ cs) must lb
+    let lim : Option Nat := checkedSub start n
+    let w := walkLim dp.2 lim (2 * n + 2) (some start)
+    w.2 = lim → Sound t ds cs ((List.range n).map fun i => (w.1.map (· % n)).contains i) := by
+  intro n dp lim w hfin
+  have hnd : n = ds.length := rfl
+  have hn : 0 < n := by omega
+  have hD : (ds ++ ds).length = 2 * n := by simp [n]; omega
+  have hch : ChainsOk t (ds ++ ds) (cs ++ cs) dp.2 := contourDp_ok t _ _ must lb
+  have hcl : dp.2.length = 2 * n := by rw [← hD]; exact contourDp_length ..
+  let m : Nat → Bool := fun e => w.1.contains e
+  have hmS : ∀ e, (m e = true ↔ e ∈ w.1) := fun e => by simp [m]
+  have hlo : loOf lim = start + 1 - n := by
+    simp only [lim, checkedSub]; split <;> simp only [loOf] <;> omega
+  have hlo_le : loOf lim + n = start + 1 := by omega
+  have hge : ∀ e, e ∈ w.1 → loOf lim ≤ e := fun e he => walkLim_ge dp.2 lim _ _ e he
+  have hle : ∀ e, e ∈ w.1 → e ≤ start := fun e he => walkLim_le t _ _ dp.2 hch lim _ _ e he
+  have hmstart : m start = true := by
+    rw [hmS]
+    have hg : gtLim lim start = true := (gtLim_iff lim start).mpr (by omega)
+    simp only [w, walkLim, hg, if_true, List.mem_cons, true_or]
+  have cert := walkLim_cert t _ _ dp.2 hch lim m (2 * n + 2) start (by omega) hfin
+    (fun e _ _ => hmS e)
+  -- window coordinates ↔ original coordinates
+  have hrot : ∀ z, loOf lim ≤ z → z ≤ start →
+      rotIx n (loOf lim) (z - loOf lim) = if z < n then z else z - n := by
+    intro z hz1 hz2; unfold rotIx; (repeat' split) <;> omega
+  have hgetD : ∀ z, loOf lim ≤ z → z ≤ start →
+      getP (ds ++ ds) z = getP ds (rotIx n (loOf lim) (z - loOf lim)) := by
+    intro z hz1 hz2; rw [hrot z hz1 hz2]; exact getP_double ds z (by omega)
+  have hgetC : ∀ z, loOf lim ≤ z → z ≤ start →
+      getP (cs ++ cs) z = getP cs (rotIx n (loOf lim) (z - loOf lim)) := by
+    intro z hz1 hz2; rw [hrot z hz1 hz2]
+    have := getP_double cs z (by omega)
+    rw [hlen] at this; exact this
+  -- the wrap reference is the same point as `start`
+  have hrefD : getP (ds ++ ds) (refOf (ds ++ ds).length lim) = getP ds (rotIx n (loOf lim) (n - 1)) ∧
+      getP (cs ++ cs) (refOf (ds ++ ds).length lim) = getP cs (rotIx n (loOf lim) (n - 1)) := by
+    have e1 : rotIx n (loOf lim) (n - 1) =
+        (if refOf (ds ++ ds).length lim < n then refOf (ds ++ ds).length lim
+         else refOf (ds ++ ds).length lim - n) := by
+      rw [hD]
+      by_cases hs : start < n
+      · simp only [lim, checkedSub, hs, if_true, refOf, loOf, rotIx]; (repeat' split) <;> omega
+      · simp only [lim, checkedSub, hs, if_false, refOf, loOf, rotIx]; (repeat' split) <;> omega
+    have hR : refOf (ds ++ ds).length lim < 2 * n := by
+      rw [hD]
+      by_cases hs : start < n
+      · simp only [lim, checkedSub, hs, if_true, refOf]; omega
+      · simp only [lim, checkedSub, hs, if_false, refOf]; omega
+    constructor
+    · rw [e1]; exact getP_double ds _ hR
+    · rw [e1]
+      have := getP_double cs (refOf (ds ++ ds).length lim) (by omega)
+      rw [hlen] at this; exact this
+  apply sound_of_cert t ds cs _ n (loOf lim) rfl (by omega) (fun i => m (i + loOf lim))
+  · intro i hi
+    have hr : rotIx n (loOf lim) i < n := by unfold rotIx; split <;> omega
+    rw [getD_map_range n _ _ hr]
+    have hz := hrot (i + loOf lim) (by omega) (by omega)
+    have e0 : i + loOf lim - loOf lim = i := by omega
+    rw [e0] at hz
+    -- both sides as propositions
+    cases hmi : m (i + loOf lim) with
+    | true =>
+      symm
+      rw [List.contains_iff_mem, List.mem_map]
+      refine ⟨i + loOf lim, (hmS _).mp hmi, ?_⟩
+      rw [hz, mod_lt2 _ n (by omega)]
+    | false =>
+      symm
+      rw [Bool.eq_false_iff]
+      intro hc
+      rw [List.contains_iff_mem, List.mem_map] at hc
+      obtain ⟨z, hzS, hzeq⟩ := hc
+      have z1 := hge z hzS
+      have z2 := hle z hzS
+      rw [hz, mod_lt2 z n (by omega)] at hzeq
+      have : z = i + loOf lim := by
+        (repeat' split at hzeq) <;> omega
+      subst this
+      rw [(hmS _).mpr hzS] at hmi; cases hmi
+  · intro k' hk' hmk
+    have hklt : k' + loOf lim < start := by
+      rcases Nat.lt_or_ge (k' + loOf lim) start with h | h
+      · exact h
+      · have : k' + loOf lim = start := by omega
+        rw [this, hmstart] at hmk; cases hmk
+    obtain ⟨a, b, hp, hnx, hok⟩ := cert (k' + loOf lim) (by omega) hklt hmk
+    obtain ⟨n1, n2, n3, n4⟩ := hnx
+    have ek : k' + loOf lim - loOf lim = k' := by omega
+    rcases hp with ⟨p1, p2, p3, p4⟩ | ⟨p1, p2⟩
+    · refine ⟨a - loOf lim, b - loOf lim, Or.inl ⟨by omega, ?_, fun j hj1 hj2 => ?_⟩,
+        ⟨by omega, by omega, ?_, fun j hj1 hj2 => ?_⟩, ?_⟩
+      · show m (a - loOf lim + loOf lim) = true
+        have : a - loOf lim + loOf lim = a := by omega
+        rw [this]; exact p3
+      · exact p4 (j + loOf lim) (by omega) (by omega)
+      · show m (b - loOf lim + loOf lim) = true
+        have : b - loOf lim + loOf lim = b := by omega
+        rw [this]; exact n3
+      · exact n4 (j + loOf lim) (by omega) (by omega)
+      · rw [← hok]; symm
+        have hk := hgetD (k' + loOf lim) (by omega) (by omega)
+        have hkc := hgetC (k' + loOf lim) (by omega) (by omega)
+        rw [ek] at hk hkc
+        exact okAt_congr t _ _ ds cs a b _ _ _ _
+          (hgetD a p1 (by omega)) (hgetC a p1 (by omega))
+          (hgetD b (by omega) n2) (hgetC b (by omega) n2) hk hkc
+    · refine ⟨n - 1, b - loOf lim, Or.inr ⟨rfl, ?_, fun j hj => ?_⟩,
+        ⟨by omega, by omega, ?_, fun j hj1 hj2 => ?_⟩, ?_⟩
+      · show m (n - 1 + loOf lim) = true
+        have : n - 1 + loOf lim = start := by omega
+        rw [this]; exact hmstart
+      · exact p2 (j + loOf lim) (by omega) (by omega)
+      · show m (b - loOf lim + loOf lim) = true
+        have : b - loOf lim + loOf lim = b := by omega
+        rw [this]; exact n3
+      · exact n4 (j + loOf lim) (by omega) (by omega)
+      · rw [← hok]; symm
+        have hk := hgetD (k' + loOf lim) (by omega) (by omega)
+        have hkc := hgetC (k' + loOf lim) (by omega) (by omega)
+        rw [ek] at hk hkc
+        subst p1
+        exact okAt_congr t _ _ ds cs _ b _ _ _ _
+          hrefD.1 hrefD.2
+          (hgetD b (by omega) n2) (hgetC b (by omega) n2) hk hkc
+
+theorem withinTol_self (t : Tol) (d : Pt) : withinTol t d (d.1, 1) (d.2, 1) = true := by
+  unfold withinTol
+  simp only [Int.mul_one, Int.sub_self, Int.mul_zero, Int.zero_mul, Int.add_zero, decide_eq_true_eq]
+  rcases Int.le_total 0 t.n with h | h
+  · exact Int.mul_nonneg h h
+  · exact Int.mul_nonneg_of_nonpos_of_nonpos h h
+
+theorem withinTol_zero (t : Tol) : withinTol t (0, 0) (0, 1) (0, 1) = true := withinTol_self t (0, 0)
+
+theorem iupPoint_same (c d x : Pt) : iupPoint c d c d x = ((d.1, 1), (d.2, 1)) := by
+  simp [iupPoint, iupAxis]
+
+theorem sound_all_zero (t : Tol) (ds cs : List Pt) (h : ∀ k, k < ds.length → getP ds k = (0, 0)) :
+    Sound t ds cs (List.replicate ds.length false) := by
+  intro k hk hek
+  have hall : ∀ j, (List.replicate ds.length false).getD j false = false := by
+    intro j; simp only [List.getD_eq_getElem?_getD, List.getElem?_replicate]; split <;> rfl
+  unfold inferSpec prevReq
+  rw [hek, prevFrom_none _ _ hall, h k hk]
+  exact withinTol_zero t
+
+theorem sound_all_equal (t : Tol) (ds cs : List Pt) (first : Pt)
+    (h : ∀ k, k < ds.length → getP ds k = first) :
+    Sound t ds cs ((List.range ds.length).map (· == 0)) := by
+  by_cases hn : ds.length = 0
+  · intro k hk; omega
+  have hr0 : rotIx ds.length 1 (ds.length - 1) = 0 := by unfold rotIx; split <;> omega
+  apply sound_of_cert t ds cs _ ds.length 1 rfl (by omega) (fun i => i == ds.length - 1)
+  · intro i hi
+    have hr : rotIx ds.length 1 i < ds.length := by unfold rotIx; split <;> omega
+    rw [getD_map_range _ _ _ hr]
+    have : (rotIx ds.length 1 i = 0) ↔ (i = ds.length - 1) := by unfold rotIx; split <;> omega
+    show (i == ds.length - 1) = (rotIx ds.length 1 i == 0)
+    by_cases hi2 : i = ds.length - 1
+    · rw [hi2, hr0]; simp
+    · have h2 : ¬ (rotIx ds.length 1 i = 0) := fun hh => hi2 (this.mp hh)
+      rw [beq_eq_false_iff_ne.mpr hi2, beq_eq_false_iff_ne.mpr h2]
+  · intro k hk hmk
+    have hk2 : k ≠ ds.length - 1 := by
+      intro hh; subst hh; simp at hmk
+    refine ⟨ds.length - 1, ds.length - 1, Or.inr ⟨rfl, by simp, fun j hj => ?_⟩,
+      ⟨by omega, by omega, by simp, fun j hj1 hj2 => ?_⟩, ?_⟩
+    · have : j ≠ ds.length - 1 := by omega
+      simp [this]
+    · have : j ≠ ds.length - 1 := by omega
+      simp [this]
+    · unfold okAt
+      rw [hr0, iupPoint_same]
+      have hr : rotIx ds.length 1 k < ds.length := by unfold rotIx; split <;> omega
+      rw [h _ hr, h 0 (by omega)]
+      exact withinTol_self t first
+
+theorem getP_of_all (ds : List Pt) (first : Pt) (h : ds.all (· == first) = true) (k : Nat)
+    (hk : k < ds.length) : getP ds k = first := by
+  rw [List.all_eq_true] at h
+  unfold getP
+  have : ds.getD k (0, 0) = ds[k] := by simp [List.getD_eq_getElem?_getD, hk]
+  rw [this]
+  have := h ds[k] (List.getElem_mem hk)
+  exact eq_of_beq this
+
+theorem dpOuter_costs_length (t : Tol) (ds cs : List Pt) (must : List Bool) (lb n : Nat) :
+    ∀ (fuel i : Nat) (costs : List Int) (chain : List (Option Nat)), costs.length = i → i ≤ n →
+      (dpOuter t ds cs must lb n fuel i costs chain).1.length ≤ n := by
+  intro fuel
+  induction fuel with
+  | zero => intro i costs chain hl hi; simp only [dpOuter]; omega
+  | succ f ih =>
+    intro i costs chain hl hi
+    simp only [dpOuter]
+    split
+    · simp only; omega
+    · split
+      · exact ih (i + 1) _ _ (by simp [hl]) (by omega)
+      · exact ih (i + 1) _ _ (by simp [hl]) (by omega)
+
+theorem contourDp_costs_length (t : Tol) (ds cs : List Pt) (must : List Bool) (lb : Nat) :
+    (contourDp t ds cs must lb).1.length ≤ ds.length := by
+  unfold contourDp
+  simp only []
+  split
+  · simp
+  · exact dpOuter_costs_length t ds cs must lb ds.length ds.length 0 [] [] rfl (by omega)
+
+theorem P_ite {β} (P : β → Prop) (c : Prop) [Decidable c] (a b : β) (ha : c → P a) (hb : ¬ c → P b) :
+    P (if c then a else b) := by
+  split
+  · exact ha (by assumption)
+  · exact hb (by assumption)
+
+theorem foldl_inv {α β} (P : β → Prop) (step : β → α → β) (l : List α)
+    (hstep : ∀ acc x, x ∈ l → P acc → P (step acc x)) : ∀ init, P init → P (l.foldl step init) := by
+  induction l with
+  | nil => intro init h; exact h
+  | cons x xs ih =>
+    intro init h
+    simp only [List.foldl_cons]
+    exact ih (fun acc y hy hp => hstep acc y (List.mem_cons_of_mem _ hy) hp) _
+      (hstep init x (List.mem_cons_self ..) h)
+
+/-- **Soundness of `iup_contour_optimize`.**  Whatever set of deltas the optimiser keeps, every
+omitted delta is reproduced by the specification's inference from the kept ones within the
+tolerance (Euclidean error² ≤ tolerance², exact arithmetic). -/
+theorem contourEncode_sound (t : Tol) (ds cs : List Pt) (enc : List Bool)
+    (hlen : cs.length = ds.length) (h : contourEncode t ds cs = some enc) :
+    enc.length = ds.length ∧ Sound t ds cs enc := by
+  unfold contourEncode at h
+  cases hds : ds with
+  | nil =>
+    rw [hds] at h
+    simp only [Option.some.injEq] at h
+    subst h
+    exact ⟨rfl, fun k hk => by simp at hk⟩
+  | cons first rest =>
+    rw [← hds]
+    have hpos : 0 < ds.length := by rw [hds]; simp
+    simp only [hds] at h
+    rw [← hds] at h
+    split at h
+    · rename_i hall
+      have hg := getP_of_all ds first hall
+      split at h
+      · rename_i hz
+        have hz' : first = (0, 0) := eq_of_beq hz
+        simp only [Option.some.injEq] at h
+        subst h
+        exact ⟨by simp, sound_all_zero t ds cs (fun k hk => by rw [hg k hk, hz'])⟩
+      · simp only [Option.some.injEq] at h
+        subst h
+        exact ⟨by simp, sound_all_equal t ds cs first hg⟩
+    · split at h
+      · -- rotated branch
+        split at h
+        · simp only [Option.some.injEq] at h
+          subst h
+          refine ⟨by simp, ?_⟩
+          exact sound_rotated t ds cs _ _ _ hlen (by omega)
+        · cases h
+      · -- doubled branch
+        split at h
+        · cases h
+        · rename_i sol hsol
+          simp only [Option.some.injEq] at h
+          subst h
+          refine ⟨by simp, ?_⟩
+          -- invariant of the `for start in …` loop
+          let n := ds.length
+          let dp := contourDp t (ds ++ ds) (cs ++ cs) (mustEncode t ds cs) (lookback n)
+          let P : Option (List Nat) × Int → Prop := fun acc =>
+            ∀ s, acc.1 = some s → Sound t ds cs ((List.range n).map fun i => s.contains i)
+          have hinv := foldl_inv P
+            (fun (acc : Option (List Nat) × Int) start =>
+              let lim : Option Nat := checkedSub start n
+              let w := walkLim dp.2 lim (2 * n + 2) (some start)
+              if w.2 == lim then
+                let cost := dp.1.getD start 0 - (if n < start then dp.1.getD (start - n) 0 else 0)
+                if cost ≤ acc.2 then (some (w.1.map (· % n)), cost) else acc
+              else acc)
+            ((List.range (dp.1.length - 1 - (n - 1))).map (· + (n - 1)))
+            (by
+              intro acc start hmem hP
+              simp only [List.mem_map, List.mem_range] at hmem
+              obtain ⟨q, hq, rfl⟩ := hmem
+              have hnd : n = ds.length := rfl
+              have hcl : dp.1.length ≤ n + n := by
+                have := contourDp_costs_length t (ds ++ ds) (cs ++ cs) (mustEncode t ds cs) (lookback n)
+                simp only [List.length_append] at this
+                exact this
+              simp only []
+              apply P_ite
+              · intro hbeq
+                apply P_ite
+                · intro _ s hs
+                  simp only [Option.some.injEq] at hs
+                  subst hs
+                  exact sound_doubled t ds cs _ _ (q + (n - 1)) hlen (by omega) (by omega) (eq_of_beq hbeq)
+                · exact fun _ => hP
+              · exact fun _ => hP)
+            (none, ((n : Nat) + 1 : Int)) (by intro s hs; cases hs)
+          exact hinv sol hsol
+
+theorem iupAxis_den_pos (c1 d1 c2 d2 c : Int) : 0 < (iupAxis c1 d1 c2 d2 c).2 := by
+  unfold iupAxis
+  split
+  · simp
+  · simp only []
+    (repeat' split) <;> simp only [] <;> omega
+
+theorem inferSpec_den_pos (cs ds : List Pt) (enc : List Bool) (k : Nat) :
+    0 < (inferSpec cs ds enc k).1.2 ∧ 0 < (inferSpec cs ds enc k).2.2 := by
+  unfold inferSpec
+  split
+  · simp
+  · split
+    · exact ⟨iupAxis_den_pos .., iupAxis_den_pos ..⟩
+    · simp
+
 end FontVerif.Iup
